@@ -11,13 +11,12 @@ theorem macRowAdc_cons (xi o y c2 c : Nat) (os ys : List Nat) :
       ((mac o xi y c2).1 :: (macRowAdc xi os ys (mac o xi y c2).2 c).1,
         (macRowAdc xi os ys (mac o xi y c2).2 c).2) := rfl
 
-/-- a row of `adc_mul_limbs` = mac row over the window, then
-    `out[i+j].adc(0, carry.wrapping_add(carry2))` on the next limb -/
+/-- a row of `adc_mul_limbs` = mac row over the window, then `out[i+j].adc(carry2, carry)` on the next limb -/
 theorem macRowAdc_eq (xi : Nat) (w ys : List Nat) (t : Nat) (rest : List Nat) (c2 c : Nat)
     (hl : w.length = ys.length) :
     macRowAdc xi (w ++ t :: rest) ys c2 c =
-      ((macRow xi w ys c2).1 ++ (adc t 0 (wadd c (macRow xi w ys c2).2)).1 :: rest,
-        (adc t 0 (wadd c (macRow xi w ys c2).2)).2) := by
+      ((macRow xi w ys c2).1 ++ (adc t (macRow xi w ys c2).2 c).1 :: rest,
+        (adc t (macRow xi w ys c2).2 c).2) := by
   induction w generalizing ys c2 with
   | nil =>
     cases ys with
@@ -30,22 +29,6 @@ theorem macRowAdc_eq (xi : Nat) (w ys : List Nat) (t : Nat) (rest : List Nat) (c
       simp only [List.cons_append, macRowAdc_cons, macRow_cons]
       rw [ih ys _ (by simpa using hl)]
 
-/-- on a limb that is still zero, with no carry pending, the row of `adc_mul_limbs` is the row of
-    `schoolbook_multiplication`, and no carry is produced -/
-theorem macRowAdc_zero {xi : Nat} (hxi : xi < B) (w ys rest : List Nat) (hw : WF w) (hy : WF ys)
-    (hl : w.length = ys.length) :
-    macRowAdc xi (w ++ 0 :: rest) ys 0 0 = (macRowSet xi (w ++ 0 :: rest) ys 0, 0) := by
-  have ⟨_, _, r3, _⟩ := macRow_spec hxi w ys 0 hw hy (by decide) hl
-  rw [macRowAdc_eq xi w ys 0 rest 0 0 hl, macRowSet_eq xi w ys 0 rest 0 hl]
-  have e1 : wadd 0 (macRow xi w ys 0).2 = (macRow xi w ys 0).2 := by
-    unfold wadd; rw [Nat.zero_add]; exact Nat.mod_eq_of_lt r3
-  rw [e1]
-  have e2 : adc 0 0 (macRow xi w ys 0).2 = ((macRow xi w ys 0).2, 0) := by
-    unfold adc
-    simp only [Nat.zero_add]
-    rw [Nat.mod_eq_of_lt r3, Nat.div_eq_of_lt r3]
-  rw [e2]
-
 theorem adcMulRows_cons (x : Nat) (xs ys out : List Nat) (c : Nat) :
     adcMulRows (x :: xs) ys out c =
       match (macRowAdc x out ys 0 c).1 with
@@ -53,49 +36,105 @@ theorem adcMulRows_cons (x : Nat) (xs ys out : List Nat) (c : Nat) :
       | o :: os => (o :: (adcMulRows xs ys os (macRowAdc x out ys 0 c).2).1,
                     (adcMulRows xs ys os (macRowAdc x out ys 0 c).2).2) := rfl
 
-/-- `adc_mul_limbs` on a buffer `w ++ 0…0` (everything above the first window still zero — the
-    zero-filled fallback and the `xt` pass) coincides with the schoolbook rows and returns carry 0;
-    in particular its `carry.wrapping_add(carry2)` is `0 + carry2` there. -/
-theorem adcMulRows_zero_tail (xs ys w : List Nat) (hx : WF xs) (hy : WF ys) (hw : WF w)
-    (hl : w.length = ys.length) :
-    adcMulRows xs ys (w ++ uzero xs.length) 0 = (schoolRows xs ys (w ++ uzero xs.length), 0) := by
-  induction xs generalizing w with
-  | nil => simp [adcMulRows, schoolRows]
+/-- `adc_mul_limbs` rows on ANY accumulator: `out' + B^|out|·carry' = out + xs·ys + B^|ys|·carry`,
+    all lengths; the running carry stays ≤ 1 (with the repaired epilogue `adc(carry2, carry)`). -/
+theorem adcMulRows_spec (xs ys out : List Nat) (c : Nat) (hx : WF xs) (hy : WF ys) (ho : WF out)
+    (hc : c ≤ 1) (hl : out.length = xs.length + ys.length) :
+    val (adcMulRows xs ys out c).1 + B ^ out.length * (adcMulRows xs ys out c).2
+      = val out + val xs * val ys + B ^ ys.length * c ∧
+    WF (adcMulRows xs ys out c).1 ∧ (adcMulRows xs ys out c).1.length = out.length ∧
+    (adcMulRows xs ys out c).2 ≤ 1 := by
+  induction xs generalizing out c with
+  | nil =>
+    simp only [List.length_nil, Nat.zero_add] at hl
+    refine ⟨?_, ho, rfl, hc⟩
+    simp only [adcMulRows, val_nil, Nat.zero_mul, Nat.add_zero, hl]
   | cons x xs ih =>
     have ⟨hx1, hxs⟩ := WF_cons.mp hx
-    have ⟨r1, r2, r3, r4⟩ := macRow_spec hx1 w ys 0 hw hy (by decide) hl
-    rw [adcMulRows_cons, schoolRows_cons, List.length_cons, uzero_succ,
-      macRowAdc_zero hx1 w ys _ hw hy hl, macRowSet_eq x w ys 0 _ 0 hl]
-    rcases hm : macRow x w ys 0 with ⟨w', c'⟩
-    rw [hm] at r2 r3 r4
-    simp only at r2 r3 r4 ⊢
-    cases w' with
-    | nil =>
-      simp only [List.nil_append]
-      have := ih [] hxs WF_nil (by
-        have : w.length = 0 := by simpa using r4.symm
-        rw [← hl, this]; rfl)
-      simp only [List.nil_append] at this
-      rw [this]
-    | cons o t =>
-      have ⟨_, ht⟩ := WF_cons.mp r2
-      have hwt : WF (t ++ [c']) := WF_append.mpr ⟨ht, WF_cons.mpr ⟨r3, WF_nil⟩⟩
-      have hlen : t.length + 1 = w.length := by simpa using r4
-      have hlt : (t ++ [c']).length = ys.length := by
-        simp only [List.length_append, List.length_cons, List.length_nil]; omega
-      have e : (o :: t) ++ c' :: uzero xs.length = o :: ((t ++ [c']) ++ uzero xs.length) := by simp
-      rw [e]
-      simp only
-      rw [ih (t ++ [c']) hxs hwt hlt]
+    -- out = w ++ t :: rest with |w| = |ys|
+    have hsplit : out = out.take ys.length ++ out.drop ys.length := (List.take_append_drop _ _).symm
+    have hdl : (out.drop ys.length).length = xs.length + 1 := by
+      rw [List.length_drop, hl, List.length_cons]; omega
+    rcases hd : out.drop ys.length with _ | ⟨t, rest⟩
+    · rw [hd] at hdl; simp at hdl
+    rw [hd] at hsplit hdl
+    have hwl : (out.take ys.length).length = ys.length := by
+      rw [List.length_take, hl, List.length_cons]; omega
+    generalize out.take ys.length = w at *
+    subst hsplit
+    have ⟨hw, htr⟩ := WF_append.mp ho
+    have ⟨ht, hrest⟩ := WF_cons.mp htr
+    have hrl : rest.length = xs.length := by simpa using hdl
+    have ⟨r1, r2, r3, r4⟩ := macRow_spec hx1 w ys 0 hw hy (by decide) hwl
+    rw [adcMulRows_cons, macRowAdc_eq x w ys t rest 0 c hwl]
+    rcases hm : macRow x w ys 0 with ⟨w', c2⟩
+    rw [hm] at r1 r2 r3 r4
+    simp only at r1 r2 r3 r4 ⊢
+    have a1 : (adc t c2 c).1 + B * (adc t c2 c).2 = t + c2 + c := (adc_spec t c2 c).1
+    have a2 : (adc t c2 c).1 < B := (adc_spec t c2 c).2
+    have a3 : (adc t c2 c).2 ≤ 1 := adc_carry_le_one ht r3 hc
+    generalize adc t c2 c = A at *
+    have hblock : ∃ o os, w' ++ A.1 :: rest = o :: os ∧ WF os ∧ o < B ∧ os.length = xs.length + ys.length ∧
+        o + B * val os = val (w' ++ A.1 :: rest) := by
+      cases w' with
+      | nil =>
+        refine ⟨A.1, rest, rfl, hrest, a2, ?_, rfl⟩
+        have : ys.length = 0 := by rw [← hwl, ← r4]; rfl
+        omega
+      | cons o t' =>
+        have ⟨ho', ht'⟩ := WF_cons.mp r2
+        refine ⟨o, t' ++ A.1 :: rest, rfl, WF_append.mpr ⟨ht', WF_cons.mpr ⟨a2, hrest⟩⟩, ho', ?_, rfl⟩
+        have : t'.length + 1 = ys.length := by rw [← hwl, ← r4]; rfl
+        simp only [List.length_append, List.length_cons]; omega
+    obtain ⟨o, os, hos, wos, hob, los, vos⟩ := hblock
+    rw [hos]
+    simp only
+    have ⟨i1, i2, i3, i4⟩ := ih os A.2 hxs wos a3 los
+    refine ⟨?_, WF_cons.mpr ⟨hob, i2⟩, ?_, i4⟩
+    · have hLen : (w ++ t :: rest).length = os.length + 1 := by
+        simp only [List.length_append, List.length_cons]; omega
+      rw [hLen, Nat.pow_succ, val_cons, val_cons (x := x)]
+      rw [val_append, val_cons, r4, hwl] at vos
+      rw [hwl] at r1
+      rw [val_append, val_cons, hwl]
+      generalize B ^ os.length = Q at *
+      generalize B ^ ys.length = M at *
+      linear_combination B * i1 + vos + r1 + M * a1
+    · simp only [List.length_cons, i3, List.length_append]; omega
 
-/-- the threshold fallback `out.fill(ZERO); adc_mul_limbs(lhs, rhs, out)` is the schoolbook product -/
+/-- `adc_mul_limbs(lhs, rhs, out)` is exact on every accumulator, for all lengths: the returned carry
+    is the carry out of the whole `|lhs| + |rhs|`-limb addition. -/
+theorem adcMulLimbs_spec (x y out : List Nat) (hx : WF x) (hy : WF y) (ho : WF out)
+    (hl : out.length = x.length + y.length) :
+    val (adcMulLimbs x y out).1 + B ^ out.length * (adcMulLimbs x y out).2 = val out + val x * val y ∧
+    WF (adcMulLimbs x y out).1 ∧ (adcMulLimbs x y out).1.length = out.length ∧
+    (adcMulLimbs x y out).2 ≤ 1 := by
+  have ⟨h1, h2, h3, h4⟩ := adcMulRows_spec x y out 0 hx hy ho (by decide) hl
+  unfold adcMulLimbs
+  refine ⟨?_, h2, h3, h4⟩
+  rw [h1, Nat.mul_zero, Nat.add_zero]
+
+/-- if the sum fits, the carry is 0 and the value is the sum -/
+theorem fits_no_carry {r c s Q : Nat} (hr : r < Q) (hs : s < Q) (h : r + Q * c = s) : r = s ∧ c = 0 := by
+  rcases Nat.eq_zero_or_pos c with h0 | h0
+  · subst h0; omega
+  · have : Q * 1 ≤ Q * c := Nat.mul_le_mul_left _ h0
+    omega
+
+/-- the threshold fallback `out.fill(ZERO); adc_mul_limbs(lhs, rhs, out)` is the exact product -/
 theorem adcMulLimbs_zero (x y : List Nat) (hx : WF x) (hy : WF y) :
-    adcMulLimbs x y (uzero (x.length + y.length)) = (schoolbookMul x y, 0) := by
-  have e : uzero (x.length + y.length) = uzero y.length ++ uzero x.length := by
-    simp [uzero, List.replicate_append_replicate, Nat.add_comm]
-  unfold adcMulLimbs schoolbookMul
-  rw [e]
-  exact adcMulRows_zero_tail x y (uzero y.length) hx hy (uzero_WF _) (uzero_length _)
+    val (adcMulLimbs x y (uzero (x.length + y.length))).1 = val x * val y ∧
+    WF (adcMulLimbs x y (uzero (x.length + y.length))).1 ∧
+    (adcMulLimbs x y (uzero (x.length + y.length))).1.length = x.length + y.length ∧
+    (adcMulLimbs x y (uzero (x.length + y.length))).2 = 0 := by
+  have ⟨h1, h2, h3, _⟩ := adcMulLimbs_spec x y _ hx hy (uzero_WF _) (uzero_length _)
+  rw [uzero_length, val_uzero, Nat.zero_add] at h1
+  rw [uzero_length] at h3
+  have hlt := val_lt_pow h2 h3
+  have hp : val x * val y < B ^ (x.length + y.length) := by
+    rw [Nat.pow_add]; exact Nat.mul_lt_mul'' (val_lt hx) (val_lt hy)
+  have := fits_no_carry hlt hp h1
+  exact ⟨this.1, h2, h3, this.2⟩
 
 theorem mask_and (p q : Bool) : mask p &&& mask q = mask (p && q) := by
   cases p <;> cases q <;> decide
@@ -117,9 +156,5 @@ theorem allZeroMask_spec {l : List Nat} (h : WF l) : allZeroMask l = mask (decid
         simp [h1, this]
     · have : x + B * val xs ≠ 0 := by omega
       simp [h0]
-
-/-- witness operands of the carry loss (33 and 34 limbs) -/
-def witnessLhs : List Nat := List.replicate 32 WMAX ++ [1]
-def witnessRhs : List Nat := List.replicate 31 0 ++ [HALF] ++ [WMAX, WMAX]
 
 end CB.Karatsuba
